@@ -63,6 +63,11 @@ type Model struct {
 	// StrictCodes: failures must carry the documented error codes (direct use of
 	// the in-memory registry). When false only success/failure is predicted.
 	StrictCodes bool
+	// ReferrersOrdered: a Referrers listing must come in ascending order of digest.
+	// The Interface documents an order for repositories and tags only; for referrers
+	// it is C05 (and, for the unifier, C15) that promise one, so only their checks set
+	// this. Everywhere else a Referrers listing is compared as a set.
+	ReferrersOrdered bool
 	// Deferred: BlobWriter errors may surface at a later call of the same writer
 	// (a buffering client); sizes reported by a writer may include buffered bytes.
 	Deferred bool
@@ -79,7 +84,7 @@ func NewModel(immutableTags bool) *Model {
 }
 
 func (m *Model) Clone() *Model {
-	n := &Model{ImmutableTags: m.ImmutableTags, StrictCodes: m.StrictCodes, Deferred: m.Deferred, Concurrent: m.Concurrent,
+	n := &Model{ImmutableTags: m.ImmutableTags, StrictCodes: m.StrictCodes, Deferred: m.Deferred, Concurrent: m.Concurrent, ReferrersOrdered: m.ReferrersOrdered,
 		Repos: make(map[string]*MRepo, len(m.Repos)), Named: make(map[string]bool, len(m.Named)),
 		Uploads: make(map[int]*MUpload, len(m.Uploads))}
 	for k, r := range m.Repos {
@@ -692,6 +697,9 @@ func (m *Model) Step(op *Op, res *Res) (bool, string) {
 				}
 			}
 		}
+		if !m.ReferrersOrdered {
+			return checkSetListing(op, got, res.ListErr, res.ExtraCalls, want)
+		}
 		return checkListing(op, got, res.ListErr, res.ExtraCalls, want, nil)
 	case UpStart:
 		m.Named[op.Repo] = true
@@ -1007,6 +1015,43 @@ func checkListing(op *Op, got []string, lerr error, extra int, must, may []strin
 			continue // beyond the point where the consumer stopped
 		}
 		return false, fmt.Sprintf("listing after %q is missing %q (got %v)", op.Start, x, got)
+	}
+	return true, ""
+}
+
+// checkSetListing: a listing whose order is not promised. got must be want, each
+// element once, or - when the consumer declined after k items - any k of them.
+func checkSetListing(op *Op, got []string, lerr error, extra int, want []string) (bool, string) {
+	if extra > 0 {
+		return false, fmt.Sprintf("the iterator called its consumer %d more time(s) after it declined or after an error", extra)
+	}
+	if lerr != nil {
+		return false, "listing ended with an error: " + CodeOf(lerr) + " " + firstLine(lerr.Error())
+	}
+	allowed := map[string]bool{}
+	for _, x := range want {
+		allowed[x] = true
+	}
+	seen := map[string]bool{}
+	for _, x := range got {
+		if !allowed[x] {
+			return false, fmt.Sprintf("listing contains %q which does not exist", x)
+		}
+		if seen[x] {
+			return false, fmt.Sprintf("listing contains %q twice", x)
+		}
+		seen[x] = true
+	}
+	n := len(want)
+	if op.StopAfter >= 0 {
+		if len(got) > op.StopAfter {
+			return false, fmt.Sprintf("consumer declined after %d items but received %d", op.StopAfter, len(got))
+		}
+		n = min(n, op.StopAfter)
+	}
+	if len(got) < n {
+		sort.Strings(want)
+		return false, fmt.Sprintf("listing has %d of %d items (got %v, want %v)", len(got), len(want), got, want)
 	}
 	return true, ""
 }
